@@ -66,7 +66,8 @@ pub fn run(ctx: &Ctx) -> Outcome {
         let iv3 = pattern(seed, 0x1719, w.iv_len(cfg));
         let data = pattern(seed, 0xC16, (par_of(cfg) + 2) * cfg.bs + 8);
         let n_ops = w.n_ops();
-        let hmax = tier.pick(2, 3);
+        // quick tier, large blocks: shorter prefix histories (the interleavings explored after the clone are the same)
+        let hmax = if light(cfg, tier) > 0 { 1 } else { tier.pick(2, 3) };
         let h1s = histories(n_ops, hmax);
         let h23 = histories(n_ops, tier.pick(2, 2));
         let label = w.label();
